@@ -199,6 +199,8 @@ def mut_shard(item, deadline):
         acc.traces += 1
         acc.transitions += 2
         hs = handling_signature(dev, problems)
+        # canonical end state of the device as far as it can be observed: what it sent, what it keeps, how it handled it
+        acc.state((level, tuple(obs), hs, tuple(sorted(dev.residue())), bool(problems)))
         acc.outcome("%s:%s:%s" % (level, "judged" if cls["judged"] else "health-only", ",".join(obs)[:40] or "silent"))
         for name, msg in vclock.swallowed:
             acc.swallowed["%s: %s" % (name, msg[:70])] += 1
@@ -233,6 +235,7 @@ def hist_shard(item, deadline):
         acc.case((level, tuple(frames), settle))
         acc.traces += 1
         acc.transitions += len(frames) + 1
+        acc.state((level, "history", tuple(obs), handling_signature(dev, problems), tuple(sorted(dev.residue())), bool(problems)))
         acc.outcome("hist:%s" % ("ok" if not problems else problems[0][0]))
         for prob, detail in problems:
             acc.fail(root_cause(dev, "history:" + prob), {"problem": prob, "detail": detail, "level": level,
